@@ -36,9 +36,16 @@ class _Rewriter(ast.NodeTransformer):
             return ast.copy_location(call, node)
         return node
 
+    _STR_METHODS = {"startswith", "endswith", "find", "count", "replace", "index", "strip", "lstrip", "rstrip", "rfind"}
+
     def visit_Call(self, node):
         self.generic_visit(node)
         f = node.func
+        if isinstance(f, ast.Attribute) and f.attr in self._STR_METHODS and node.args and not node.keywords \
+                and not any(isinstance(a, ast.Starred) for a in node.args):
+            # str methods reject proxy ARGUMENTS before a proxy can intercept: route through __vmeth__
+            return ast.copy_location(
+                ast.Call(func=ast.Name(id="__vmeth__", ctx=ast.Load()), args=[f.value, ast.Constant(f.attr), *node.args], keywords=[]), node)
         if (isinstance(f, ast.Attribute) and f.attr == "join" and isinstance(f.value, ast.Constant)
                 and isinstance(f.value.value, str) and len(node.args) == 1 and not node.keywords):
             return ast.copy_location(
@@ -151,6 +158,7 @@ def _load_rewritten(repo, pkgname="peg_parser", only=MODS):
             mod.__package__ = pkgname
             mod.__dict__["__vin__"] = chars.vin
             mod.__dict__["__vjoin__"] = chars.vjoin
+            mod.__dict__["__vmeth__"] = chars.vmeth
             sys.modules[f"{pkgname}.{m}"] = mod
             setattr(pkg, m, mod)
             exec(code, mod.__dict__)
